@@ -8,9 +8,34 @@ def readOut (s : Store) (head : String) : Json :=
   | .error e => Json.mkObj [("err", errName e)]
   | .ok e => Json.mkObj [("ops", opIds e.ops), ("create", jnat e.createTime), ("edit", jnat e.editTime)]
 
+def statusName : Status → String
+  | .new => "new" | .nothing => "nothing" | .updated => "updated" | .invalid => "invalid" | .error => "error"
+
+/-- `MergeAll`: fold `merge` over the remote refs in the order `ListRefs` returned them. -/
+def mergeAllOut (j : Json) : Json :=
+  let author := getStr j "author"
+  let init : Store × Nat × Nat × List Json := (storeOf j "commits", getNat j "clockEdit", getNat j "clockCreate", [])
+  let (_, ce, cc, outs) := (getArr j "refs").foldl (fun (st : Store × Nat × Nat × List Json) r =>
+    let (s, ce, cc, outs) := st
+    let newHash := getStr r "newHash"
+    let mo := merge s (getStr? r "local") (getStr r "remote") ce cc newHash (getStr r "mergePackId") author
+    let s' := match mo.mergeCommit with
+      | some (ps, e) => s ++ [{ hash := newHash, parents := ps,
+                                pack := .ok { id := getStr r "mergePackId", author := author, ops := [], create := 0, edit := e } }]
+      | none => s
+    let o := Json.mkObj [("status", statusName mo.status),
+      ("head", match mo.localHead with | some h => Json.str h | none => Json.null),
+      ("ops", opIds mo.entityOps),
+      ("merge", match mo.mergeCommit with
+                | some (ps, e) => Json.mkObj [("parents", jstrs ps), ("edit", jnat e)]
+                | none => Json.null)]
+    (s', mo.clockEdit, mo.clockCreate, outs ++ [o])) init
+  Json.mkObj [("results", jarr outs), ("clockEdit", jnat ce), ("clockCreate", jnat cc)]
+
 def handle (j : Json) : Json :=
   match getStr j "cmd" with
   | "read" => readOut (storeOf j "commits") (getStr j "head")
+  | "mergeAll" => mergeAllOut j
   | c => Json.mkObj [("bad-op", Json.str c)]
 
 end Driver.C03
